@@ -246,7 +246,7 @@ fn run_with_fault(script: &[J], f: Fault, base_state: &J) -> (Vec<String>, Resul
     }
     fired += sess.med.counters().faults;
     sess.med.set_fault(None);
-    let verdict = check_bytes(&sess, base_state).map_err(|e| e.1);
+    let verdict = check_bytes(&sess, base_state, false).map_err(|e| e.1);
     // a full trace of this run (re-executed with state logging) for TLC, when the fault fired but nothing reported it
     if fired > 0 {
         tr = traced_rerun(script, f);
